@@ -92,19 +92,31 @@ def runCase (j : Json) : Except String Json := do
       let a ← x.getArr?
       match a.toList with
       | [k, o, n] => do
-        let kind ← kindOf (← k.getStr?)
+        let ks ← k.getStr?
         let oi ← o.getInt?
         let n ← n.getInt?
+        -- operations that are not number assignments (tools/vlib/c04lib.py: NEUTRAL)
+        if ks = "relink" then pure (Sum.inl Edit.relink)
+        else if ks = "geom+" ∨ ks = "geom-" then pure (Sum.inl (Edit.addLeaf oi.toNat { isCell := false, target := n.toNat }))
+        else if ks = "geom#" then pure (Sum.inl (Edit.addLeaf oi.toNat { isCell := true, target := n.toNat }))
+        else if ks = "reappend:cell" then pure (Sum.inr Kind.cell)
+        else if ks = "reappend:surf" then pure (Sum.inr Kind.surf)
+        else if ks = "reappend:tr" then pure (Sum.inr Kind.tr)
+        else
+        let kind ← kindOf ks
         -- universes are addressed by the number they have in the original file
         let obj ← if kind = .univ then
             (match lookup p0.univs oi with | some u => pure u | none => throw s!"no universe {oi}")
           else pure oi.toNat
-        pure ({ kind, obj, n } : MontePyVerif.Renumber.Op)
+        pure (Sum.inl (Edit.num ({ kind, obj, n } : MontePyVerif.Renumber.Op)))
       | _ => throw "op")
     let (p, outs) := ops.foldl (fun (acc : Prob × List String) op =>
-      let r := step acc.1 op
+      let r := match op with
+        | Sum.inl e => stepE acc.1 e
+        | Sum.inr k => reappendLast acc.1 k
       (r.1, outName r.2 :: acc.2)) (p0, [])
-    let nums (k : Kind) : Json := toJson ((p.coll k).objs.map (p.coll k).num)
+    -- per object in the order of the original cards (add_cell_children_to_problem may have sorted the collections)
+    let nums (k : Kind) : Json := toJson ((p0.coll k).objs.map (p.coll k).num)
     return Json.mkObj [
       ("link", "ok"), ("wellFormed", toJson wf.wellFormedB), ("outs", toJson outs.reverse),
       ("numbers", Json.mkObj [("cell", nums .cell), ("surf", nums .surf), ("mat", nums .mat), ("tr", nums .tr),
